@@ -59,12 +59,22 @@ def build_bin(prop, crate_dir_name, repo_root=None, timeout=1800):
     return binp, dst
 
 
-def bounded_stand_in(rep, prop, crate, args, name, what, bound, functions, replay_hint):
+def bounded_stand_in(rep, prop, crate, args, name, what, bound, functions, replay_hint, env=None):
     """Run a native exhaustive small-domain enumerator as a BOUNDED stand-in for functions that neither verifier
     can reach (stated in `functions`).  It is recorded under coverage.bounded_checks with backend
     'native exhaustive enumeration', never counted as proved.  A failing input is a confirmed violation."""
-    rc, out, err, secs = run_replay(prop, crate, args)
+    rc, out, err, secs = run_replay(prop, crate, args, toolchain_env=env)
     ok = rc == 0
+    if rc == 101:
+        # the enumerator aborted on a panic: if the panic was raised INSIDE the tree under check (not by an unwrap of
+        # the enumerator itself), the real code panicked on one of the enumerated inputs - a confirmed failure
+        m = re.search(r"panicked at ([^\n:]+):(\d+)", err)
+        if m and os.path.abspath(m.group(1)).startswith(os.path.abspath(REPO) + os.sep):
+            rep.obligation("native:" + name, "native exhaustive enumeration (rustc, real crates)", False, seconds=secs,
+                           detail=what + " | functions: " + functions, complete=False, bound=bound)
+            rep.violation("native:" + name, "the code under check panicked on an enumerated input\n" + err[-1500:],
+                          witness="panic at %s:%s" % (os.path.relpath(m.group(1), REPO), m.group(2)), replay_text=replay_hint, confirmed=True)
+            return
     if rc not in (0, 1):
         rep.undecided.append("%s: enumerator did not run (rc=%s): %s" % (name, rc, (err or out)[-300:].replace("\n", " | ")))
         return
